@@ -196,3 +196,21 @@ LOOPFRESH_TABLE = {'canvas.CompositeCanvas.content_delta': (('C02', 'C04'),
 SENTINEL_EXCEPTIONS = {
     "ListBox.set_focus_valign_pending": "None or a two-element tuple (valign type, amount): a non-empty tuple is always truthy",
 }
+
+
+# INV-RENDER (C06.9): render-path stores to state render() reads that need no _invalidate(), one line of reason each.
+_TERMINAL_LIVE = "Terminal.render() returns its one live, mutable TermCanvas object (self.term): every cache entry is that same object, there is no older rendering to go stale; output arriving from the pty invalidates explicitly"
+INV_RENDER_EXCEPTIONS = {
+    "vterm.Terminal.terminate:terminated": _TERMINAL_LIVE,
+    "vterm.Terminal.change_focus:old_tios": "saved tty settings of the hosting terminal, not part of the canvas",
+    "vterm.Terminal.flush_responses:response_buffer": "output queue towards the pty, not part of the canvas",
+    "vterm.Terminal.touch_term:term": _TERMINAL_LIVE,
+    "vterm.Terminal.touch_term:width": _TERMINAL_LIVE,
+    "vterm.Terminal.touch_term:height": _TERMINAL_LIVE,
+    "vterm.Terminal.spawn:master": "pty file descriptor, not part of the canvas",
+    "vterm.Terminal.spawn:pid": "child process id, not part of the canvas",
+    "widget.popup.PopUpTarget._update_overlay:_pop_up": "memo of the pop-up widget found in the child's canvas during this very call; a different pop-up means the child changed, which invalidates the child and - through the dependency cascade - this widget",
+    "widget.popup.PopUpTarget._update_overlay:_current_widget": "rebuilt from the child's canvas in the same call (see _pop_up)",
+    "widget.scrollable.Scrollable._adjust_trim_top:_scroll_action": "one-shot command: set by keypress / mouse_event together with _invalidate() (C06.1a), reset to the neutral None when consumed; renderings after the reset do not depend on the consumed value",
+    "widget.scrollable.Scrollable._adjust_trim_top:_old_cursor_coords": "edge detector reset to the neutral None when consumed (see INV_EXCEPTIONS)",
+}
